@@ -4,7 +4,7 @@ touches a file S touches, apply R then S to a scratch worktree of /repo HEAD (wh
 tree builds) and run the check of S's own property against it. The check must still report a violation:
 a refactor must not hide a breakage. Prints the combinations that are NOT reported.
 
-usage: combocheck.py [-j N] [seed-name ...]
+usage: combocheck.py [-j N] [-r ROUND-GLOB] [seed-name ...]
 Scratch worktrees live under /tmp and are removed. Nothing here is a registered check."""
 import glob, json, os, re, subprocess, sys, tempfile
 from concurrent.futures import ThreadPoolExecutor
@@ -55,10 +55,14 @@ def main():
     if args and args[0] == "-j":
         j = int(args[1])
         args = args[2:]
+    rpat = "R*"
+    if args and args[0] == "-r":
+        rpat = args[1]
+        args = args[2:]
     seeds = sorted(glob.glob("/verif/seeded/*/patch.diff"))
     if args:
         seeds = [s for s in seeds if os.path.basename(os.path.dirname(s)) in args]
-    refactors = sorted(glob.glob("/verif/robust/R*/refactor*.diff"))
+    refactors = sorted(glob.glob("/verif/robust/%s/refactor*.diff" % rpat))
     rfiles = {r: files_of(r) for r in refactors}
     jobs = []
     for s in seeds:
